@@ -144,7 +144,7 @@ async fn burst(b: &Burst) -> Verdict {
             Step::err(5, 3)
         }
     });
-    let layer = CoalesceLayer::new(|r: &Req| r.key);
+    let layer = CoalesceLayer::new(|r: &Req| crate::props::cache::CKey(r.key));
     let base = layer.layer(inner.clone());
     let n = b.keys.len();
     type Fut = std::pin::Pin<Box<dyn std::future::Future<Output = Result<Resp, CoalesceError<SErr>>> + Send>>;
@@ -259,7 +259,7 @@ async fn interp(case: &CoCase) -> Verdict {
         table.insert(i as u32, vec![c.step]);
     }
     let inner = Scripted::from_table(log.clone(), table, Step::ok(0));
-    let layer = CoalesceLayer::new(|r: &Req| r.key);
+    let layer = CoalesceLayer::new(|r: &Req| crate::props::cache::CKey(r.key));
     let base = layer.layer(inner.clone());
     let mut clones: Vec<_> = (0..3).map(|_| base.clone()).collect();
     let horizon = case
